@@ -79,11 +79,11 @@ func (iso *ISO3k3y) ReadAt(b []byte, off int64) (int, error) {
 
 func (*ISO3k3y) clear3k3yData(start sizeBytes, data []byte) {
 	end := start + sizeBytes(len(data))
-	if start >= _3k3yMaskedDataEnd || end < _3k3yMaskedDataBegin {
+	if start >= _3k3yMaskedDataEnd || end <= _3k3yMaskedDataBegin {
 		return
 	}
 
-	for i := _3k3yMaskedDataBegin - start; i < min(_3k3yMaskedDataEnd, end)-start; i++ {
+	for i := max(_3k3yMaskedDataBegin, start) - start; i < min(_3k3yMaskedDataEnd, end)-start; i++ {
 		data[i] = 0
 	}
 }
